@@ -22,7 +22,8 @@ from genjax import pjax as gpjax, normal, gen
 
 PROP = "C14"
 COMPILING = {"jit", "scan", "while", "fori", "cond", "switch"}
-WRAPPERS = ["jit", "scan", "while", "fori", "cond", "switch", "grad", "vmap", "checkpoint", "custom_jvp", "vmap_unbatched"]
+WRAPPERS = ["jit", "scan", "while", "fori", "cond", "switch", "grad", "vmap", "checkpoint", "custom_jvp", "vmap_unbatched",
+            "mvmap_mapped", "mvmap_unmapped", "gen_vmap"]
 
 
 def gen_case(rng, tier):
@@ -88,6 +89,17 @@ def wrap(w, g):
     if w == "vmap_unbatched":
         # the site's arguments do not depend on the mapped input
         return lambda x: jnp.sum(jax.vmap(lambda y: y + g(x))(jnp.stack([x, x + 1.0])) * jnp.asarray([1.0, -1.0]))
+    if w == "mvmap_mapped":
+        # modular_vmap keeps the site as a (re-bound, lane-wise) sampling primitive: still unseeded
+        return lambda x: jnp.sum(gpjax.modular_vmap(lambda y: g(y))(jnp.stack([x, x + 1.0])) * jnp.asarray([1.0, -0.5]))
+    if w == "mvmap_unmapped":
+        return lambda x: jnp.sum(gpjax.modular_vmap(lambda: g(x), in_axes=(), axis_size=2)() * jnp.asarray([1.0, -0.5]))
+    if w == "gen_vmap":
+        @gen
+        def vm(y):
+            return normal.vmap(in_axes=(0, None))(jnp.stack([y, y + 1.0]), 1.0) @ "v"
+
+        return lambda x: jnp.sum(vm.simulate(g(x) * 0.0 + x).get_retval() * jnp.asarray([1.0, -0.5]))
     if w == "checkpoint":
         return jax.checkpoint(lambda x: g(x))
     if w == "custom_jvp":
@@ -122,8 +134,20 @@ def classify(exc):
 
 def run_case(case):
     chain = case["chain"]
-    compiles = any(w in COMPILING for w in chain)
-    has_vmap = "vmap" in chain
+    # A cond / switch below a wrapper that maps its predicate (plain vmap, modular_vmap over a mapped
+    # argument) is turned into a select of both branches evaluated eagerly: no compile attempt happens.
+    compiles = False
+    lanes_outside = False
+    for w in chain:
+        if w in ("jit", "scan", "while", "fori"):
+            compiles = True
+        elif w in ("cond", "switch") and not lanes_outside:
+            compiles = True
+        if w in ("vmap", "mvmap_mapped"):
+            lanes_outside = True
+    # modular_vmap is built on jax.vmap: constructs it does not interpret (checkpoint, custom_jvp, ...)
+    # reach the site's batch rule without the modular context and raise NotImplementedError like plain vmap
+    has_vmap = any(w in ("vmap", "mvmap_mapped", "mvmap_unmapped", "gen_vmap") for w in chain)
     has_vmap_unb = "vmap_unbatched" in chain
     viol = []
     faults = {}
@@ -132,7 +156,7 @@ def run_case(case):
     for w in set(chain):
         probes["w_" + w] = 1
     sig = dict(chain="/".join(chain), site=case["site"], has_grad="grad" in chain,
-               vmap_unbatched=has_vmap_unb and not has_vmap)
+               vmap_unbatched=has_vmap_unb and "vmap" not in chain)
     x = jnp.float32(case["x"])
     hist = []
     steps = 0
@@ -188,7 +212,7 @@ def run_case(case):
                     viol.append(V("baked_randomness", "compile_attempt_raises_lowering_error",
                                   f"unseeded site under {'/'.join(chain)} was compiled and returned {world.to_py(r)} "
                                   f"after history {hist}", **sig))
-                elif has_vmap or has_vmap_unb:
+                elif "vmap" in chain or has_vmap_unb:
                     viol.append(V("replicated_draw", "plain_vmap_over_site_raises",
                                   f"plain jax.vmap over an unseeded site ({'/'.join(chain)}) returned instead of raising", **sig))
                 else:
